@@ -135,7 +135,13 @@ class ThreadWorker(Worker):
             self._result = (False, e)
             logger.exception('Exception occurred while running the main function')
         finally:
-            self._cleanup()
+            try:
+                self._cleanup()
+            except WorkerTerminatedError:
+                # a termination request arrived while cleaning up - unlike a process, a thread does not get
+                # its pipes closed by the OS when it dies, so make sure the cleanup is completed
+                self._cleanup()
+                raise
 
     def _cleanup(self):
         pass
